@@ -87,7 +87,16 @@ def is_par(it):
     return False
 
 
-def par_materialise(I, it):
+def _perm(I, k):
+    if k <= 1: return list(range(k))
+    if k == 2: return [[0, 1], [1, 0]][I.E.choose(2, "par_order")]
+    if k == 3:
+        import itertools
+        return list(list(itertools.permutations(range(3)))[I.E.choose(6, "par_order")])
+    return [list(range(k)), list(range(k - 1, -1, -1)), list(range(1, k)) + [0]][I.E.choose(3, "par_order")]
+
+
+def par_materialise(I, it, consumer=""):
     """A rayon pipeline: the closure-bearing adaptors (map / filter / filter_map / flat_map) form one task per item of the indexed
     source below them.  The tasks are executed one after another in an order chosen by the solver (every permutation for <= 3
     tasks; identity, reverse and one rotation beyond), their results are assembled in index order (rayon's contract for indexed
@@ -101,6 +110,10 @@ def par_materialise(I, it):
     while chain and chain[-1].kind == "copied":
         cur = chain.pop()
     if not chain:
+        if consumer in ("for_each", "try_for_each", "for_each_with", "any", "all"):
+            # the consumer's own closure is the task: it is applied to the items in a solver-chosen order
+            items = drain(I, cur)
+            return Iter("list", xs=[items[i] for i in _perm(I, len(items))], i=0)
         return it
     unordered = False
     probe = cur
@@ -109,13 +122,7 @@ def par_materialise(I, it):
         probe = probe.d.get("inner") or (probe.d.get("a") if probe.kind in ("zip", "chain") else None)
     items = drain(I, cur)
     k = len(items)
-    if k <= 1: perm = list(range(k))
-    elif k == 2: perm = [[0, 1], [1, 0]][I.E.choose(2, "par_order")]
-    elif k == 3:
-        import itertools
-        perm = list(list(itertools.permutations(range(3)))[I.E.choose(6, "par_order")])
-    else:
-        perm = [list(range(k)), list(range(k - 1, -1, -1)), list(range(1, k)) + [0]][I.E.choose(3, "par_order")]
+    perm = _perm(I, k)
     outs = {}
     for idx in perm:
         vals = [items[idx]]
@@ -390,7 +397,7 @@ def method(name, c):
             return it
         if name in ("by_ref", "into_iter", "fuse"): return a[0] if byref else it
         if getattr(I, "par_orders", False) and name not in PAR_LAZY and is_par(it):
-            it = par_materialise(I, it)          # tasks executed in a solver-chosen order, results in index order
+            it = par_materialise(I, it, name)    # tasks executed in a solver-chosen order, results in index order
         if name in ("find_any", "position_any", "find_first", "position_first"):
             xs, hits = drain(I, it), []
             for idx, x in enumerate(xs):
